@@ -93,6 +93,21 @@ PROPS = {
         "assumptions": ["net.ParseIP / IP.String are environment (table supplied by the harness, formatter re-implemented in the driver)",
                         "names and files are ASCII (strings.ToLower / strings.Fields are Unicode-aware in Go)"],
     },
+    "C14": {
+        "proof_files": ["Proofs/ClientFacts.v"],
+        "runs": [{"engine": "clientinfo", "args": ["-mode", "probe"], "n_quick": 1500, "n_thorough": 150000},
+                 {"engine": "clientinfo", "args": ["-mode", "headers"], "n_quick": 150, "n_thorough": 6000, "netns": True}],
+        "trivial_tags": [r"^off$"],
+        "rule": "probe: the daemon binary built from /repo (package main, add-only probe file) computes shortID for random profile ids x device "
+                "byte strings (MAC, IPv4, IPv6, empty, long) and the ClientInfo closure installed by setupClientReporting for LAN clients "
+                "with/without MAC and discovered names by address / by MAC (control bytes, non-ASCII, long, dotted); compared with the extracted "
+                "model (xxhash64, base-32, model string, name normalisation); spec: five characters, no full MAC in what is sent. headers: the "
+                "real DoH resolver sends real HTTP/2 requests with scripted client information (names incl. control / non-ASCII bytes, "
+                "reporting on/off); the X-Device-* headers received by the server and whether the query resolved are compared with the model. "
+                "non-trivial = reporting on",
+        "assumptions": ["the wiring of -report-client-info to setupClientReporting in run.go is not exercised (package main run())",
+                        "names are injected at lookup level, not through multicast"],
+    },
     "C16": {
         "proof_files": ["Proofs/ListenFacts.v", "Mutants/ListenRace.v"],
         "runs": [{"engine": "listen", "args": [], "n_quick": 120, "n_thorough": 5000, "netns": True}],
